@@ -226,7 +226,7 @@ def hex_setup(case, R):
     except Exception as e:   # noqa
         R.violation('hex:structure', f'attributes of the aperture are not as documented: {type(e).__name__}: {e}')
         return None
-    tag = f'excl={"none" if not excl else ("0" if excl == [0] else ("last" if excl == [ntot - 1] else "multi"))}'
+    tag = excl_tag(excl, rings)
     ok = R.expect(got_ids == ids, f'hex:segment-ids:{tag}', f'segment_ids {got_ids} != documented {ids} (rings={rings}, exclude={excl})')
     ok &= R.expect(len(wins) == len(ids) and len(lms) == len(ids) and len(lcs) == len(ids) and len(cts) == len(ids),
                    f'hex:segment-count:{tag}',
@@ -388,6 +388,7 @@ def run_hex_opd(case, seed, R):
     want = (A @ coefs.ravel()).reshape(n0, n1)
     cond = (np.abs(A) @ np.abs(coefs.ravel())).reshape(n0, n1)
     R.expect_close(got, want, 1e3 * EPS * (cond + 1e-300), 'hex:opd-nonlinear', 'compose_opd(c) vs sum_k c_k compose_opd(e_k)')
+    check_scaling(R, lambda c: R.call(ap.compose_opd, c, sig='hex:compose_opd:exception'), A, ns, nm, coefs, (n0, n1), 'hex')
     again = R.call(ap.compose_opd, coefs, sig='hex:compose_opd:exception')
     R.expect_equal(again, got if got is not FAILED else want, 'hex:opd-stateful', 'second identical compose_opd call')
     base = dense((n0, n1), seed, salt=19, complex_=False)
@@ -397,6 +398,34 @@ def run_hex_opd(case, seed, R):
         R.expect_close(acc, base + np.asarray(got), 8 * EPS * (np.abs(base) + cond + 1e-300), 'hex:opd-out', 'compose_opd(c, out=b) vs b + compose_opd(c)')
     R.nontrivial(bool(A.any()))
     R.outcome(f'opd:{kind}:{sig_par}')
+
+
+SCALES = [1e-3, 1e-9, 1e-12, -1e-9]
+
+
+def check_scaling(R, compose, A, ns, nm, coefs, shape, prefix):
+    """Homogeneity at small scale: compose(s e_k) == s compose(e_k) for one mode of every segment (the mode rotates with
+    the segment index) and for the dense array, s in SCALES; plus one array mixing O(1) and tiny segments."""
+    for s in SCALES:
+        for k in range(ns):
+            m = k % nm
+            c = np.zeros((ns, nm))
+            c[k, m] = s
+            got = compose(c)
+            col = A[:, k * nm + m].reshape(shape)
+            if not R.expect_close(got, s * col, 8 * EPS * abs(s) * np.abs(col), f'{prefix}:opd-scaling',
+                                  f'compose_opd({s:g} e[segment {k}, mode {m}]) vs {s:g} x compose_opd(e)'):
+                break
+        want = (A @ (s * coefs).ravel()).reshape(shape)
+        cond = (np.abs(A) @ np.abs(s * coefs).ravel()).reshape(shape)
+        R.expect_close(compose(s * coefs), want, 1e3 * EPS * cond, f'{prefix}:opd-scaling', f'compose_opd({s:g} c) vs {s:g} x sum_k c_k compose_opd(e_k)')
+    # segments alternately O(1), 1e-9, 1e-12, exactly 0
+    per = np.array([1.0, 1e-9, 1e-12, 0.0])[np.arange(ns) % 4][:, None]
+    mixed = coefs * per
+    want = (A @ mixed.ravel()).reshape(shape)
+    cond = (np.abs(A) @ np.abs(mixed).ravel()).reshape(shape)
+    R.expect_close(compose(mixed), want, 1e3 * EPS * cond, f'{prefix}:opd-scaling',
+                   'compose_opd of an array whose segments are alternately O(1), 1e-9, 1e-12 and 0 vs the operator matrix')
 
 
 # ---------------------------------------------------------------------------------------------
@@ -592,6 +621,7 @@ def run_keystone_opd(case, seed, R):
     want = (A @ coefs.ravel()).reshape(n0, n1)
     cond = (np.abs(A) @ np.abs(coefs.ravel())).reshape(n0, n1)
     R.expect_close(got, want, 1e3 * EPS * (cond + 1e-300), 'keystone:opd-nonlinear', 'compose_opd(c) vs sum_k c_k compose_opd(e_k)')
+    check_scaling(R, lambda c: R.call(ap.compose_opd, c[0], c[1:], sig='keystone:compose_opd:exception'), A, ns, nm, coefs, (n0, n1), 'keystone')
     again = R.call(ap.compose_opd, coefs[0], coefs[1:], sig='keystone:compose_opd:exception')
     R.expect_equal(again, got if got is not FAILED else want, 'keystone:opd-stateful', 'second identical compose_opd call')
     R.nontrivial(bool(A.any()))
@@ -975,9 +1005,50 @@ HEX_DIAM_T = {1: [11.0, 15.7, 21.4], 2: [7.0, 10.3, 13.0], 3: [5.0, 7.6, 9.1]}
 GAPS = [0.0, 1.0, 3.3]                                            # in samples
 
 
+def ring_first(k):
+    return 1 + 3 * k * (k - 1)
+
+
+def ring_last(k):
+    return 3 * k * (k + 1)
+
+
 def excl_sets(rings):
-    last = 3 * rings * (rings + 1)
-    return [[], [0], [0, 3], [last]]
+    """The base alphabet: none, the centre, centre + one inner id, the very last id."""
+    return [[], [0], [0, 3], [ring_last(rings)]]
+
+
+def excl_sets_ring_edges(rings):
+    """Exclusions that touch the id bookkeeping between rings: first id, last id and a trailing run of EVERY ring,
+    the last ids of all non-final rings together, a whole inner ring, centre + an inner ring's last id."""
+    out = []
+    for k in range(1, rings + 1):
+        out += [[ring_first(k)], [ring_last(k)], [ring_last(k) - 1, ring_last(k)]]
+    if rings >= 2:
+        out.append([ring_last(k) for k in range(1, rings)])
+        out.append(list(range(ring_first(1), ring_last(1) + 1)))
+        out.append([0, ring_last(1)])
+        out.append([ring_last(1), ring_first(2)])
+    base = excl_sets(rings)
+    uniq = []
+    for e in out:
+        if e not in base and e not in uniq:
+            uniq.append(e)
+    return uniq
+
+
+def excl_tag(excl, rings):
+    if not excl:
+        return 'excl=none'
+    if excl == [0]:
+        return 'excl=0'
+    if any(e == ring_last(k) for e in excl for k in range(1, rings)):
+        return 'excl=inner-ring-last'
+    if ring_last(rings) in excl:
+        return 'excl=last'
+    if any(e == ring_first(k) for e in excl for k in range(1, rings + 1)):
+        return 'excl=ring-first'
+    return 'excl=multi'
 
 
 def plan(tier, seed):
@@ -992,11 +1063,18 @@ def plan(tier, seed):
     hex_cases = [{'n0': n[0], 'n1': n[1], 'dx': dx, 'rings': r, 'diam': d, 'gap': g, 'angle': a, 'exclude': e}
                  for r in (1, 2, 3) for n in grids for dx in dxs for d in diams[r] for g in GAPS for a in (90, 0)
                  for e in excl_sets(r)]
+    # exclusions at ring boundaries: the id bookkeeping does not depend on the raster, so a reduced geometric product
+    hex_cases += [{'n0': n[0], 'n1': n[1], 'dx': 1.0, 'rings': r, 'diam': HEX_DIAM[r][0], 'gap': g, 'angle': a, 'exclude': e}
+                  for r in (1, 2, 3) for n in ([[48, 48], [49, 49]] if quick else [[48, 48], [49, 49], [64, 65]]) for g in (0.0, 3.3)
+                  for a in (90, 0) for e in excl_sets_ring_edges(r)]
     opd_grids = [[48, 48], [49, 49], [40, 57]] if quick else [[48, 48], [49, 49], [64, 64], [65, 65], [40, 57], [57, 40]]
     opd_cases = [{'n0': n[0], 'n1': n[1], 'dx': dx, 'rings': r, 'diam': HEX_DIAM[r][1], 'gap': g, 'angle': a, 'exclude': e,
                   'basis': b, 'norm': nr}
                  for r in ((1, 2) if quick else (1, 2, 3)) for n in opd_grids for dx in dxs for g in (0.0, 3.3) for a in (90, 0)
                  for e in excl_sets(r) for b in ('xy', 'rt') for nr in ('default', 'explicit')]
+    opd_cases += [{'n0': n, 'n1': n, 'dx': 1.0, 'rings': r, 'diam': HEX_DIAM[r][0], 'gap': 1.0, 'angle': a, 'exclude': e,
+                   'basis': b, 'norm': 'default'}
+                  for r in ((2,) if quick else (2, 3)) for n in (48, 49) for a in (90, 0) for e in excl_sets_ring_edges(r) for b in ('xy', 'rt')]
 
     rots = [None, 0, 10, [0, 17.5], 100, -10]
     key_cases = [{'n0': n[0], 'n1': n[1], 'dx': dx, 'layout': lay, 'fill': fill, 'gap': g, 'agap': agp, 'rot': rot}
@@ -1028,20 +1106,22 @@ def plan(tier, seed):
     units = [
         ScopeUnit('hex_tiling', hex_cases, run_hex,
                   f'every grid in {{{G}}} x dx in {{1, 0.1}} x rings {{1,2,3}} x flat-to-flat diameters per ring count {diams} samples (the larger ones '
-                  f'overflow the small grids, so windows get clamped / emptied) x gap {GAPS} samples x segment_angle {{90, 0}} x exclusion {{none, {{0}}, {{0,3}}, {{last}}}}: '
+                  f'overflow the small grids, so windows get clamped / emptied) x gap {GAPS} samples x segment_angle {{90, 0}} x exclusion {{none, {{0}}, {{0,3}}, {{last}}}}, plus on a reduced '
+                  'geometric product the ring-boundary exclusions (first id, last id, trailing pair of every ring, all inner-ring last ids, whole ring 1, {{0,6}}, {{6,7}}): '
                   'ids and count 1+3r(r+1)-|excl|, centres at the documented positions, every segment raster == analytic hexagon outside the 1e-9 band, '
                   'pairwise disjoint, amp == union, area within the boundary-pixel bound, local_coords; non-trivial when the aperture is neither empty nor full',
                   reset=rs),
         ScopeUnit('hex_opd', opd_cases, run_hex_opd,
                   'grids x dx x rings x gap {0, 3.3} x both angles x 4 exclusion sets x basis {Cartesian monomials, polar r^n cos/sin} x normalisation {default, explicit}: '
                   'the full operator matrix of compose_opd over the (segment, mode) basis: support of every column inside its own segment, piston column == segment indicator, '
-                  'column == mode(local coordinates) x mask, one seeded dense coefficient array == matrix x coefficients, repeatability, out= accumulation', reset=rs),
+                  'column == mode(local coordinates) x mask, one seeded dense coefficient array == matrix x coefficients, homogeneity compose(s c) == s compose(c) for s in {1e-3, 1e-9, 1e-12, -1e-9} '
+                  '(one mode of every segment + the dense array) and an array mixing O(1), 1e-9, 1e-12 and 0 segments, repeatability, out= accumulation; ring-boundary exclusions on a reduced product', reset=rs),
         ScopeUnit('keystone_tiling', key_cases, run_keystone,
                   f'grids x dx x layouts {sorted(set(c["layout"] for c in key_cases))} (segments per ring / ring widths, scalar and per-ring forms) x fill {{fits, overflows the grid}} x radial gap {GAPS} x azimuthal gap '
                   'x rotation_per_ring {None, 0, 10, [0,17.5], 100, -10}: count, every segment raster == analytic annular sector outside the band, pairwise disjoint, amp inside the union and each amp '
                   'sample in exactly one segment, amp == union minus seam strips, areas within the boundary-pixel bound', reset=rs),
         ScopeUnit('keystone_opd', kopd_cases, run_keystone_opd,
-                  'layouts A,B x grids x fill x gap x rotation x basis {polar, Cartesian}: operator matrix of compose_opd over (centre + segments, mode): confinement, piston, linearity, repeatability', reset=rs),
+                  'layouts A,B x grids x fill x gap x rotation x basis {polar, Cartesian}: operator matrix of compose_opd over (centre + segments, mode): confinement, piston, linearity, homogeneity over the scale alphabet {1e-3, 1e-9, 1e-12, -1e-9} and a mixed-scale array, repeatability', reset=rs),
         ScopeUnit('prim_circle', circ_cases, run_circle,
                   f'circle / annulus / offset_circle on every grid x dx x centre offset {offs} samples x the sorted radius alphabet {CIRC_R} samples (annulus: 3 inner x 6 outer and 2 outer x 6 inner); '
                   'truecircle on the normalised grid for n in {48,49,64,65}; cart_to_polar against hypot/atan2: membership, monotone growth, full D4 symmetry on the index-symmetric part', reset=rs),
